@@ -148,6 +148,29 @@ def worker(case, led):
                                  for i in sites)
                     led.check(defect <= 1e-9, f"post:{fn}:isometry_in_advertised_direction", fn, f"isometry defect {defect:.2e}",
                               key + ("iso",), fields, rep)
+            # ---- ensure_*_canonical on an object whose metadata says "canonical" but ONE site (any site, incl. the last / first) is no isometry any more
+            #      (a one-site operator applied there, a tensor assigned): the result must be canonical in the advertised form and represent the same object
+            if n >= 2 and not is_op:
+                for k in sorted({0, n - 1, n // 2}):
+                    x = c1.copy()                      # to_right sweep -> left-canonical form (qnidx n-1, to_right False), and vice versa
+                    t = np.array(np.asarray(x[k].array))
+                    t[:, 0, :] = t[:, 0, :] * 3.0      # same support, labels still valid, isometry of site k broken
+                    x[k] = t
+                    vx = S.dense(x)
+                    ens, efn = ("ensure_left_canonical", "MatrixProduct.ensure_left_canonical") if direction else ("ensure_right_canonical", "MatrixProduct.ensure_right_canonical")
+                    try:
+                        y = getattr(x, ens)()
+                    except Exception as e:
+                        led.check(False, f"post:{efn}:total", efn, f"raised {type(e).__name__}: {e}", key + ("ens", k), fields, dict(rep, spoiled_site=k))
+                        continue
+                    sites = range(0, n - 1) if direction else range(1, n)
+                    defect = max((S.left_isometry_defect(np.asarray(y[i].array)) if direction else S.right_isometry_defect(np.asarray(y[i].array))) for i in sites)
+                    okm = (y.qnidx == n - 1 and not y.to_right) if direction else (y.qnidx == 0 and y.to_right)
+                    led.check(defect <= 1e-9 and okm, f"post:{efn}:canonical_whatever_site_was_spoiled", efn,
+                              f"site {k} of a {'left' if direction else 'right'}-canonical state replaced: after {ens} the isometry defect is {defect:.2e} (qnidx={y.qnidx}, to_right={y.to_right})",
+                              key + ("ens-iso", k), dict(fields, spoiled_site_is_end=bool(k in (0, n - 1))), dict(rep, spoiled_site=k))
+                    led.check(close(S.dense(y), vx) and not S.qnv_violations(y), f"post:{efn}:object_unchanged", efn, f"{ens} changed the represented object (site {k} spoiled)",
+                              key + ("ens-dense", k), fields, dict(rep, spoiled_site=k))
             # ---- two opposite sweeps: bonds bounded by physical dimensions; idempotent
             c2 = c1.copy()
             c2.canonicalise()
@@ -222,24 +245,50 @@ def worker(case, led):
         if a is not None and terms and np.abs(U.dense_terms(model, terms)).max() > 1e-12:
             H = Mpo(model, terms)
             ref = S.dense(H) @ S.dense(a)
-            if np.linalg.norm(ref) > 1e-8:
+            # every combination of real / complex state and real / complex operator (the bra of the fit is the conjugate of the GUESS, whatever the dtype of the input)
+            ac = U.make_state(model, q, 3, rng, complex_=True)
+            terms_c = U.random_terms(model, rng, 3, complex_factors=True)
+            Hc = Mpo(model, terms_c) if terms_c and np.abs(U.dense_terms(model, terms_c)).max() > 1e-12 else None
+            combos = [("real", "real", a, H, terms)]
+            if Hc is not None:
+                combos.append(("real", "complex", a, Hc, terms_c))
+            if ac is not None:
+                combos.append(("complex", "real", ac, H, terms))
+                if Hc is not None:
+                    combos.append(("complex", "complex", ac, Hc, terms_c))
+            for sdt, odt, a_, H_, terms_ in combos:
+                ref = S.dense(H_) @ S.dense(a_)
+                if np.linalg.norm(ref) <= 1e-8:
+                    continue
                 for vmethod in ("2site", "1site"):
-                    a2 = a.copy()
+                    a2 = a_.copy()
                     a2.compress_config = CompressConfig(CompressCriteria.fixed, max_bonddim=64, vmethod=vmethod)
-                    key = (name, n, "variational", vmethod)
-                    rep = {"model": name, "nsites": n, "sector": q, "terms": [repr(t) for t in terms], "vmethod": vmethod, "seed": seed}
+                    key = (name, n, "variational", vmethod, sdt, odt)
+                    rep = {"model": name, "nsites": n, "sector": q, "terms": [repr(t) for t in terms_], "vmethod": vmethod, "seed": seed, "state_dtype": sdt, "operator_dtype": odt}
+                    vf_ = {"vmethod": vmethod, "state_dtype": sdt, "operator_dtype": odt}
                     try:
-                        r = a2.variational_compress(H)
+                        r = a2.variational_compress(H_)
                         err = np.linalg.norm(S.dense(r) - ref) / np.linalg.norm(ref)
                         bound = 10 * a2.compress_config.vrtol if vmethod == "2site" else None
                         if bound is not None:
                             led.check(err <= bound, "post:MatrixProduct.variational_compress:converges_to_product", "MatrixProduct.variational_compress",
-                                      f"relative error {err:.2e} > 10*vrtol", key, {"vmethod": vmethod}, rep)
-                        led.check(np.allclose(S.dense(a2), S.dense(a), atol=1e-12), "frame:MatrixProduct.variational_compress:input",
-                                  "MatrixProduct.variational_compress", "input state changed", key + ("frame",), {"vmethod": vmethod}, rep)
+                                      f"{sdt} state, {odt} operator: relative error {err:.2e} > 10*vrtol", key, vf_, rep)
+                        led.check(np.allclose(S.dense(a2), S.dense(a_), atol=1e-12), "frame:MatrixProduct.variational_compress:input",
+                                  "MatrixProduct.variational_compress", "input state changed", key + ("frame",), vf_, rep)
                     except Exception as e:
                         led.check(False, "post:MatrixProduct.variational_compress:total", "MatrixProduct.variational_compress",
-                                  f"raised {type(e).__name__}: {e}", key, {"vmethod": vmethod}, rep)
+                                  f"raised {type(e).__name__}: {e}", key, vf_, rep)
+                if sdt == "real" and odt == "complex":
+                    try:
+                        rc = H_.contract(a_, algo="variational")
+                        err = np.linalg.norm(S.dense(rc) - ref) / np.linalg.norm(ref)
+                        led.check(err <= 1e-5, "post:Mpo.contract:variational_equals_product", "Mpo.contract", f"contract(algo='variational') of a complex operator with a real state: "
+                                  f"relative error {err:.2e}", (name, n, "contract-variational", sdt, odt), {"state_dtype": sdt, "operator_dtype": odt},
+                                  {"model": name, "nsites": n, "sector": q, "terms": [repr(t) for t in terms_], "seed": seed})
+                    except Exception as e:
+                        led.check(False, "post:Mpo.contract:total", "Mpo.contract", f"contract(algo='variational') raised {type(e).__name__}: {e}",
+                                  (name, n, "contract-variational", sdt, odt), {}, {"model": name, "nsites": n, "seed": seed})
+            if np.linalg.norm(S.dense(H) @ S.dense(a)) > 1e-8:
                 # a deliberately poor start (bond-dimension-one guess): whatever the routine returns after its own convergence test
                 # |new - old| / |new| < vrtol must be a fixed point of a further call started from it.  (Whether the fixed point is the global optimum depends on
                 # the start: with vguess_m = (1, 1) the two-site fit can stay in the symmetry sectors of its guess also on the unchanged code, so accuracy is
@@ -272,6 +321,7 @@ def check(run):
     from props import C04_proof
     C04_proof.prove(run)
     C04_proof.prove_compress_slice(run)
+    C04_proof.prove_canonical_checks(run)
     from props import C04_kernel
     guarded(run, C04_kernel.prove)
     seeds = [run.seed] if run.tier == "quick" else [run.seed, run.seed + 1]
